@@ -1653,6 +1653,16 @@ class FuncRun:
             for x in ast.walk(g.target):
                 if isinstance(x, ast.Name):
                     targets.add(x.id)
+        # a name bound by `:=` inside the comprehension (typically in a filter) is bound anew for every element
+        for g in comp.generators:
+            for cond in g.ifs:
+                for x in ast.walk(cond):
+                    if isinstance(x, ast.NamedExpr) and isinstance(x.target, ast.Name):
+                        targets.add(x.target.id)
+        for part in ([comp.key, comp.value] if isinstance(comp, ast.DictComp) else [comp.elt]):
+            for x in ast.walk(part):
+                if isinstance(x, ast.NamedExpr) and isinstance(x.target, ast.Name):
+                    targets.add(x.target.id)
         names = {x.id for x in ast.walk(elt) if isinstance(x, ast.Name)}
         if names & targets:
             return
